@@ -560,7 +560,7 @@ pub mod life {
         if closing {
             let _ = tx.close();
             if !sdone {
-                if (p & (P10 | P11)) != 0 { assert!(cs.n() == 1, "C10+C11 shared send future: parked at close() but not woken"); }
+                if (p & (P10 | P11)) != 0 { assert!(cs.n() >= 1, "C10+C11 shared send future: parked at close() but not woken"); }
                 let r = { let mut cx = Context::from_waker(&ws); unsafe { Pin::new_unchecked(&mut *sf) }.poll(&mut cx) };
                 match r {
                     Poll::Ready(Err(e)) => { if (p & (P08 | P11)) != 0 { assert!((e.0).0 == 2, "C08+C11 shared send future: did not hand back its own value after close()"); } core::mem::forget(e); }
@@ -583,7 +583,7 @@ pub mod life {
         if (p & P17) != 0 { assert!(rf.is_terminated(), "C17 shared receive future: not terminated after it completed"); }
         if !sdone {
             // the parked sender's value moved into the freed slot and the sender was woken through its waker
-            if (p & P10) != 0 { assert!(cs.n() == 1, "C10 shared send future: its value was accepted but it was not woken"); }
+            if (p & P10) != 0 { assert!(cs.n() >= 1, "C10 shared send future: its value was accepted but it was not woken"); }
             let r = { let mut cx = Context::from_waker(&ws); unsafe { Pin::new_unchecked(&mut *sf) }.poll(&mut cx) };
             match r {
                 Poll::Ready(Ok(())) => {}
